@@ -164,6 +164,151 @@ example : OutputEqualsTree xMH xMC 60 [(["m"], .dir), (["m", "f"], .file [1]), (
     ⟨by decide, { kind := "tmp" }, by decide, rfl, rfl⟩ xMH_direct xMH_mountsReal 60 _ xMH_scan _
     (by simp [loadFrags, addFrag, mkParents, Tree.get, Tree.set])
 
+/-! ### the mounted content loads: `CollsWF`, `SitesApart`, `SpecCompat` -/
+
+theorem xMC_collsWF : CollsWF xMC := by
+  intro e he c hc
+  simp only [xMC, List.mem_cons, List.not_mem_nil, or_false] at he
+  rcases he with rfl | rfl | rfl
+  · cases hc
+  · simp only [Option.some.injEq] at hc; subst hc; unfold CollWF entryPath; decide
+  · simp only [Option.some.injEq] at hc; subst hc; unfold CollWF entryPath; decide
+
+theorem xMH_get (p : Path) (n : Node) (hg : xMH.get p = some n) :
+    (p = [] ∧ n = .dir) ∨ (p = ["o"] ∧ n = .dir) ∨ (p = ["o", "m"] ∧ n = .dir) ∨
+    (p = ["o", "lc"] ∧ n = .link true ["mnt", "c", "sub"]) := by
+  unfold Host.get at hg
+  split at hg
+  · rename_i h0; left; exact ⟨h0, by simpa using hg.symm⟩
+  · right
+    simp only [xMH, List.find?_cons] at hg
+    by_cases h1 : (["o"] : Path) = p
+    · simp [h1] at hg; exact Or.inl ⟨h1.symm, hg.symm⟩
+    · by_cases h2 : (["o", "m"] : Path) = p
+      · simp [h1, h2] at hg; exact Or.inr (Or.inl ⟨h2.symm, hg.symm⟩)
+      · by_cases h3 : (["o", "lc"] : Path) = p
+        · simp [h1, h2, h3] at hg; exact Or.inr (Or.inr ⟨h3.symm, hg.symm⟩)
+        · simp [h1, h2, h3] at hg
+
+/-- everything the specification shows for `xMH`: the root and the link `lc` -/
+theorem xMH_shows (d s : Path) (hs : Shows xMH xMC d s) :
+    (d = [] ∧ s = ["out"]) ∨ (d = ["lc"] ∧ s = ["out", "lc"]) := by
+  induction hs with
+  | root => exact Or.inl ⟨rfl, rfl⟩
+  | child hsh0 hdir hex hsec hskip ih =>
+    rename_i d0 s0 c
+    rcases ih with ⟨rfl, rfl⟩ | ⟨rfl, rfl⟩
+    · obtain ⟨n, hn⟩ := hex
+      have hn' : xMH.get ["o", c] = some n := hn
+      rcases xMH_get _ _ hn' with ⟨h0, _⟩ | ⟨h0, _⟩ | ⟨h0, _⟩ | ⟨h0, _⟩
+      · cases h0
+      · cases h0
+      · simp only [List.cons.injEq, and_true, true_and] at h0; subst h0
+        exact absurd hskip (by decide)
+      · simp only [List.cons.injEq, and_true, true_and] at h0; subst h0
+        exact Or.inr ⟨rfl, rfl⟩
+    · exact absurd hdir (by decide)
+  | link hsh0 hnode hin ih =>
+    rcases ih with ⟨rfl, rfl⟩ | ⟨rfl, rfl⟩
+    · have h0 : nodeAt xMH xMC ["out"] = some .dir := by decide
+      rw [h0] at hnode; cases hnode
+    · have h1 : nodeAt xMH xMC ["out", "lc"] = some (.link true ["mnt", "c", "sub"]) := by decide
+      rw [h1] at hnode
+      simp only [Option.some.injEq, Node.link.injEq] at hnode
+      obtain ⟨rfl, rfl⟩ := hnode
+      obtain ⟨_, m, hsm, hk, _⟩ := hin
+      have h2 : srcMount xMC (linkTarget ["out", "lc"] true ["mnt", "c", "sub"]) =
+          some (["mnt", "c"], { kind := "collection", coll := some [([], "g", [2]), (["sub"], "z", [3]), (["sub2"], "w", [4])] }) := by
+        decide
+      rw [h2] at hsm
+      simp only [Option.some.injEq, Prod.mk.injEq] at hsm
+      exact absurd hsm.1 (by decide)
+
+/-- the jump positions of `xMH`: the root and the target of `lc` -/
+theorem xMH_jumps (d x : Path) (hj : Jumps xMH xMC d x) :
+    (d = [] ∧ x = ["out"]) ∨ (d = ["lc"] ∧ x = ["mnt", "c", "sub"]) := by
+  cases hj with
+  | root => exact Or.inl ⟨rfl, rfl⟩
+  | link hsh hnode =>
+    rcases xMH_shows _ _ hsh with ⟨rfl, rfl⟩ | ⟨rfl, rfl⟩
+    · have h0 : nodeAt xMH xMC ["out"] = some .dir := by decide
+      rw [h0] at hnode; cases hnode
+    · have h1 : nodeAt xMH xMC ["out", "lc"] = some (.link true ["mnt", "c", "sub"]) := by decide
+      rw [h1] at hnode
+      simp only [Option.some.injEq, Node.link.injEq] at hnode
+      obtain ⟨rfl, rfl⟩ := hnode
+      exact Or.inr ⟨rfl, rfl⟩
+
+/-- the sites of `xMH`: the two jump positions and the mount `/out/m` below the root -/
+theorem xMH_sites (D y : Path) (hs : Site xMH xMC D y) :
+    (D = [] ∧ y = ["out"]) ∨ (D = ["lc"] ∧ y = ["mnt", "c", "sub"]) ∨ (D = ["m"] ∧ y = ["out", "m"]) := by
+  rcases hs with hj | ⟨d, x, hj, _, m, hm, hpre, hlt, _, hD⟩
+  · rcases xMH_jumps _ _ hj with h | h
+    · exact Or.inl h
+    · exact Or.inr (Or.inl h)
+  · simp only [xMC, List.mem_cons, List.not_mem_nil, or_false, Prod.mk.injEq] at hm
+    rcases xMH_jumps _ _ hj with ⟨rfl, rfl⟩ | ⟨rfl, rfl⟩
+    · rcases hm with ⟨rfl, _⟩ | ⟨rfl, _⟩ | ⟨rfl, _⟩
+      · exact absurd hlt (by decide)
+      · exact Or.inr (Or.inr ⟨by simpa using hD, rfl⟩)
+      · exact absurd hpre (by decide)
+    · rcases hm with ⟨rfl, _⟩ | ⟨rfl, _⟩ | ⟨rfl, _⟩
+      · exact absurd hpre (by decide)
+      · exact absurd hpre (by decide)
+      · exact absurd hlt (by decide)
+
+theorem xMH_sitesApart : SitesApart xMH xMC := by
+  intro D y D' y' s1 s2 hne hpre g hg
+  have f0 : fragOf xMC [] ["out"] = [] := by
+    simp [fragOf, xMC, srcMount, underSecret, rootLen]
+  rcases xMH_sites _ _ s1 with ⟨rfl, rfl⟩ | ⟨rfl, rfl⟩ | ⟨rfl, rfl⟩
+  · exact absurd f0 hne
+  · rcases xMH_sites _ _ s2 with ⟨rfl, rfl⟩ | ⟨rfl, rfl⟩ | ⟨rfl, rfl⟩
+    · exact absurd hpre (by decide)
+    · exact hg
+    · exact absurd hpre (by decide)
+  · rcases xMH_sites _ _ s2 with ⟨rfl, rfl⟩ | ⟨rfl, rfl⟩ | ⟨rfl, rfl⟩
+    · exact absurd hpre (by decide)
+    · exact absurd hpre (by decide)
+    · exact hg
+
+/-- the hypotheses of `C17_output_equals_tree_apart` hold of the tree with a collection mounted
+beneath the output path and a link into another mounted collection; no loading hypothesis is left -/
+example : ∃ t0, loadFrags [] (Plan.frags { dirs := [], files := [], frags := [(["m", "f"], some [1]), (["lc", "z"], some [3])] }) = some t0 ∧
+    OutputEqualsTree xMH xMC 60 t0 :=
+  C17_output_equals_tree_apart xMH xMC ⟨by decide, by decide, by decide⟩ xMC_wf (by decide) (by decide)
+    ⟨by decide, { kind := "tmp" }, by decide, rfl, rfl⟩ xMH_direct xMH_mountsReal xMC_collsWF xMH_sitesApart 60 _ xMH_scan
+
+/-- … and `SpecCompat` holds of it (`C17_frags_load_iff`, left to right) -/
+example : SpecCompat xMH xMC :=
+  (C17_frags_load_iff xMH xMC ⟨by decide, by decide, by decide⟩ xMC_wf (by decide) (by decide)
+    ⟨by decide, { kind := "tmp" }, by decide, rfl, rfl⟩ xMH_direct 60 _ xMH_scan).mp
+    ⟨_, by simp [loadFrags, addFrag, mkParents, Tree.get, Tree.set]; rfl⟩
+
+/-- overlapping mounts: the collection at `/out/m` has the *file* `s`, another collection is mounted
+at `/out/m/s` — the items contradict each other (`¬ SpecCompat`), `Copy` fails (`C17_frags_conflict_fails`) -/
+def xOC : Cfg :=
+  { ctrOut := ["out"], hostOut := ["o"],
+    mounts := [(["out"], { kind := "tmp" }),
+               (["out", "m"], { kind := "collection", coll := some [([], "s", [1])] }),
+               (["out", "m", "s"], { kind := "collection", coll := some [([], "f", [2])] })],
+    secrets := [] }
+
+example (h : Host) : ¬ SpecCompat h xOC := by
+  intro hsc
+  have s1 : Site h xOC ["m"] ["out", "m"] :=
+    Or.inr ⟨[], ["out"], Jumps.root, by unfold notSecret; decide,
+      { kind := "collection", coll := some [([], "s", [1])] }, by simp [xOC], by decide, by decide, by decide, rfl⟩
+  have s2 : Site h xOC ["m", "s"] ["out", "m", "s"] :=
+    Or.inr ⟨[], ["out"], Jumps.root, by unfold notSecret; decide,
+      { kind := "collection", coll := some [([], "f", [2])] }, by simp [xOC], by decide, by decide, by decide, rfl⟩
+  have f1 : (["m", "s"], some [1]) ∈ fragOf xOC ["m"] ["out", "m"] := by
+    simp [fragOf, xOC, srcMount, underSecret, rootLen, extract, cleanRel, cleanRelStep]
+  have f2 : (["m", "s", "f"], some [2]) ∈ fragOf xOC ["m", "s"] ["out", "m", "s"] := by
+    simp [fragOf, xOC, srcMount, underSecret, rootLen, extract, cleanRel, cleanRelStep]
+  have := (hsc _ _ _ _ s1 s2 _ f1 _ f2 rfl).2 (by decide)
+  exact absurd this.1 (by decide)
+
 /-! ### failing trees -/
 
 /-- FIFO in a subdirectory -/
